@@ -21,6 +21,7 @@ import (
 	"sort"
 	"strings"
 	"sync"
+	"syscall"
 	"time"
 
 	gologging "gopkg.in/op/go-logging.v1"
@@ -42,6 +43,9 @@ type tnode struct {
 	Text     string   `json:"text,omitempty"` // ... or this literal content
 	Target   string   `json:"target,omitempty"`
 	Children []*tnode `json:"children,omitempty"`
+	// Vanish: the entry exists when the store starts and when its directory is listed, and is
+	// removed (with everything below it) before the archive writer reaches it
+	Vanish bool `json:"vanish,omitempty"`
 }
 
 func (t *tnode) content() []byte {
@@ -52,6 +56,9 @@ func (t *tnode) content() []byte {
 }
 
 func (t *tnode) healthy() bool {
+	if t.Vanish {
+		return false
+	}
 	switch t.Kind {
 	case "file", "link":
 		return true
@@ -165,6 +172,40 @@ type scenario struct {
 	StoreHead  int    `json:"store_head,omitempty"`
 	Retrs      []retr `json:"retrieves"`
 	Why        string `json:"why,omitempty"`
+	// an entry vanishes during the store (the node with Vanish set). Hold: a regular file that the
+	// walk reaches after the directory of that entry was listed and before the entry itself; the
+	// harness holds a write lease on it, so the archive writer's open() of it blocks in the kernel
+	// until the harness has removed the entry and released the lease. HoldByCmd: instead, the
+	// store command removes the entry after it consumed StoreHead bytes of a much longer archive
+	// (the writer is then blocked on the pipe, in the middle of an earlier large file).
+	Hold      string `json:"hold,omitempty"`
+	HoldByCmd bool   `json:"hold_by_cmd,omitempty"`
+}
+
+func (sc *scenario) vanishNode() *tnode {
+	var v *tnode
+	for _, f := range sc.Files {
+		f.each(func(t *tnode) {
+			if t.Vanish && v == nil {
+				v = t
+			}
+		})
+	}
+	return v
+}
+
+// vanishPos: the position of the vanishing node in walk order through all declared outputs
+func (sc *scenario) vanishPos() int {
+	pos, found := 0, -1
+	for _, f := range sc.Files {
+		f.each(func(t *tnode) {
+			if t.Vanish && found < 0 {
+				found = pos
+			}
+			pos++
+		})
+	}
+	return found
 }
 
 type retrObs struct {
@@ -183,6 +224,7 @@ type observed struct {
 	Footer    bool       `json:"footer"`     // ... ending in the two zero blocks
 	Members   []string   `json:"members"`
 	R         []*retrObs `json:"retrieves"`
+	Vanished  string     `json:"vanished,omitempty"` // how the removal during the store went
 }
 
 var whole = retr{RetrCut: -1}
@@ -303,6 +345,10 @@ func (w *worker) commands(sc *scenario, r retr) (string, string) {
 		st = fmt.Sprintf("head -c %d > %s; cat > /dev/null; exit 1", sc.StoreHead, f)
 	case "atomic-head-fail":
 		st = fmt.Sprintf("head -c %d > %s; cat > /dev/null; exit 1", sc.StoreHead, tmp)
+	case "atomic-rm-midway": // tmp+mv done by sh itself; removes an output entry after StoreHead bytes
+		v := sc.vanishNode()
+		st = fmt.Sprintf("head -c %d > %s; rm -rf %s; cat >> %s && mv %s %s", sc.StoreHead, tmp,
+			sq(filepath.Join(w.root, w.outDir, v.Name)), tmp, tmp, f)
 	default:
 		panic("store style " + sc.StoreStyle)
 	}
@@ -334,7 +380,7 @@ func (w *worker) run(idx int, sc *scenario) *observed {
 		w.mu.Unlock()
 		hc, err := cache.VerifNewHTTPCache(w.srv.URL, true, 0, 10*time.Second)
 		must(err)
-		hc.Store(w.target, key, names)
+		ob.Vanished = w.storeWithVanish(sc, func() { hc.Store(w.target, key, names) })
 		w.mu.Lock()
 		var ok bool
 		gz, ok = w.blobs["/"+hexKey]
@@ -348,7 +394,8 @@ func (w *worker) run(idx int, sc *scenario) *observed {
 		}
 	} else {
 		st, _ := w.commands(sc, whole)
-		cache.VerifNewCmdCache(st, "false").Store(w.target, key, names)
+		cc := cache.VerifNewCmdCache(st, "false")
+		ob.Vanished = w.storeWithVanish(sc, func() { cc.Store(w.target, key, names) })
 		// the command (or what survives of it) may still be draining its stdin
 		p := filepath.Join(w.store, hexKey)
 		last, stable := int64(-2), 0
@@ -393,6 +440,75 @@ func (w *worker) run(idx int, sc *scenario) *observed {
 		os.Remove(filepath.Join(w.store, hexKey+".tmp"))
 	}
 	return ob
+}
+
+// Linux file leases (fcntl F_SETLEASE): while a write lease is held on a file, an open() of it by
+// anybody else blocks until the holder releases the lease; F_GETLEASE tells the holder that a
+// break is pending. This gives a race-free hook INSIDE a running Store: the archive writer is
+// stopped exactly where it opens a chosen regular file.
+const (
+	fSetLease = 1024
+	fGetLease = 1025
+	fRdLck    = 0
+	fWrLck    = 1
+	fUnLck    = 2
+)
+
+func fcntl(fd int, cmd, arg uintptr) (uintptr, error) {
+	r, _, e := syscall.Syscall(syscall.SYS_FCNTL, uintptr(fd), cmd, arg)
+	if e != 0 {
+		return r, e
+	}
+	return r, nil
+}
+
+// storeWithVanish runs store(); if the scenario has a vanishing entry with a Hold file, the entry
+// is removed while the archive writer is blocked opening the Hold file.
+func (w *worker) storeWithVanish(sc *scenario, store func()) string {
+	v := sc.vanishNode()
+	if v == nil {
+		store()
+		return ""
+	}
+	vpath := filepath.Join(w.outDir, v.Name)
+	if sc.HoldByCmd {
+		store()
+		if _, err := os.Lstat(vpath); err == nil {
+			panic("c13: the store command did not remove " + vpath)
+		}
+		return "removed-by-store-command"
+	}
+	fd, err := syscall.Open(filepath.Join(w.outDir, sc.Hold), syscall.O_RDONLY|syscall.O_CLOEXEC, 0)
+	must(err)
+	defer syscall.Close(fd)
+	if _, err := fcntl(fd, fSetLease, fWrLck); err != nil {
+		panic(fmt.Sprintf("c13: cannot take a write lease on %s: %v", sc.Hold, err))
+	}
+	done := make(chan struct{})
+	go func() { store(); close(done) }()
+	res := ""
+	for deadline := time.Now().Add(40 * time.Second); res == ""; {
+		if l, err := fcntl(fd, fGetLease, 0); err != nil || l != fWrLck {
+			// the writer is blocked in open(Hold): its directory listing is behind it
+			must(os.RemoveAll(vpath))
+			res = "removed-while-writer-blocked-opening-" + sc.Hold
+			break
+		}
+		select {
+		case <-done:
+			res = "store-finished-without-opening-hold"
+		case <-time.After(200 * time.Microsecond):
+			if time.Now().After(deadline) {
+				res = "timeout"
+			}
+		}
+	}
+	fcntl(fd, fSetLease, fUnLck)
+	<-done
+	if !strings.HasPrefix(res, "removed") {
+		panic("c13: vanish hook not reached: " + res + " (hold " + sc.Hold + ")")
+	}
+	return res
 }
 
 // retrieve runs one Retrieve into an empty output directory and records what came back.
@@ -447,13 +563,15 @@ func (w *worker) retrieve(sc *scenario, r retr, key, gz []byte) *retrObs {
 				got, coq = "other", lib.Some("NDir")
 			}
 			want := ""
-			switch t.Kind {
-			case "file":
+			switch {
+			case t.Vanish:
+				want = "unreadable"
+			case t.Kind == "file":
 				b := t.content()
 				want = fmt.Sprintf("file:%d:%x", len(b), sum(b))
-			case "link":
+			case t.Kind == "link":
 				want = "link:" + t.Target
-			case "dir":
+			case t.Kind == "dir":
 				want = "dir"
 			default:
 				want = "unreadable"
